@@ -47,13 +47,20 @@ Definition dec (s : string) : text := utf8_decode (unhex s).
 (* ---- cases ---- *)
 (* KTermDec: histories aimed at the right margin (an emitted text exactly as wide as the terminal;
    finding C20-dec-margin, repaired); judged exactly as KTerm *)
-Inductive kind := KTerm | KTermDec | KBuffered | KVirtual (size : nat).
+(* KSelect: the writer a command gets for a given kind of standard output (a child process of
+   the harness whose real stdout is a pty / /dev/null / pipe / regular file), then a history *)
+Inductive kind := KTerm | KTermDec | KBuffered | KVirtual (size : nat)
+                | KSelect (k : outkind) (snapshot noout : bool).
 
 Record inp := mkinp { i_kind : kind; i_cfg : cfg; i_ups : list (nat * text) }.
 
 (* observed: the output of every call (one segment per WriteForLine, then Close / WriteToOutput);
    for VirtualTerm also Get(-1), Get(0) .. Get(LineCount) and LineCount; None = the run panicked *)
-Record obs := mkobs { o_segs : list text; o_lines : list text; o_count : nat }.
+Record obs := mkobs' { o_segs : list text; o_lines : list text; o_count : nat;
+                       (* KSelect: writer handed out (0 live, 1 buffered, 2 null), IsPipedOutput and
+                          color.Enabled as the child process sees them *)
+                       o_writer : nat; o_piped : bool; o_color : bool }.
+Definition mkobs (segs lines : list text) (count : nat) : obs := mkobs' segs lines count 0 false false.
 
 Definition mk (k : kind) (tr : bool) (cols : Z) (ups : list (N * string)) : inp :=
   mkinp k (mkcfg tr cols) (map (fun u => (N.to_nat (fst u), dec (snd u))) ups).
@@ -70,6 +77,18 @@ Definition cV (size : N) (tr : bool) (cols : Z) (ups : list (N * string)) (out :
 Definition cP (k : N) (size : N) (tr : bool) (cols : Z) (ups : list (N * string)) : inp * option obs :=
   (mk (match k with 0%N => KTerm | 1%N => KBuffered | 3%N => KTermDec | _ => KVirtual (N.to_nat size) end) tr cols ups, None).
 
+Definition okind (n : N) : outkind :=
+  match n with 0%N => OTerminal | 1%N => OCharDev | 2%N => OPipe | 3%N => OSocket | 4%N => ORegular | _ => OOther end.
+(* cS kind snapshot noout | AutoTrim and width as the child reports them | history | bytes that
+   arrived on the child's stdout | writer, IsPipedOutput, color.Enabled *)
+Definition cS (k : N) (snap noout : bool) (tr : bool) (cols : Z) (ups : list (N * string)) (out : string)
+              (w : N) (piped color : bool) : inp * option obs :=
+  (mk (KSelect (okind k) snap noout) tr cols ups, Some (mkobs' [dec out] [] 0 (N.to_nat w) piped color)).
+Definition cSP (k : N) (snap noout : bool) (tr : bool) (cols : Z) (ups : list (N * string)) : inp * option obs :=
+  (mk (KSelect (okind k) snap noout) tr cols ups, None).
+
+Definition writer_code (w : writer) : nat := match w with WLive => 0 | WBuffered => 1 | WNull => 2 end.
+
 Definition model (i : inp) : option obs :=
   let c := i_cfg i in
   match i_kind i with
@@ -85,6 +104,13 @@ Definition model (i : inp) : option obs :=
                             (vt_get v (-1) :: map (fun l => vt_get v (Z.of_nat l)) (seq 0 (S (vt_count v))))
                             (vt_count v))
       | Panic => None
+      end
+  | KSelect k snap noout =>
+      let w := select_from_args noout false snap k in
+      let out := match session_output c w (i_ups i) with Ok o => Some o | Panic => None end in
+      match out with
+      | Some out => Some (mkobs' [out] [] 0 (writer_code w) (is_piped_output k) (color_default k))
+      | None => None
       end
   end.
 
@@ -111,6 +137,23 @@ Definition obs_eqb (i : inp) (a b : obs) : bool :=
        && screens_eq (tc_of (i_cfg i) true false) (scr0, Ground) (scr0, Ground) (o_segs a) (o_segs b)
        && screens_eq (tc_of (i_cfg i) false true) (scr0, Ground) (scr0, Ground) (o_segs a) (o_segs b)
        && screens_eq (tc_of (i_cfg i) true true) (scr0, Ground) (scr0, Ground) (o_segs a) (o_segs b))%bool
+  | KSelect k snap noout =>
+      match k with
+      | OCharDev =>
+          (* a character device that is not a terminal (/dev/null): the bytes are discarded and the
+             property does not say which writer it gets; only consistency of what the commands see *)
+          (Bool.eqb (Nat.eqb (o_writer b) 1) (snap || o_piped b) || Nat.eqb (o_writer b) 2)%bool
+          && Bool.eqb (o_color b) (negb (o_piped b))
+      | OTerminal =>
+          (* the tty has translated "\n" to "\r\n": the model's bytes under ONLCR and the bytes that
+             arrived, read literally, must show the same screen *)
+          (Nat.eqb (o_writer a) (o_writer b) && Bool.eqb (o_piped a) (o_piped b) && Bool.eqb (o_color a) (o_color b)
+           && scr_eqb (fst (run (tc_of (i_cfg i) true true) (scr0, Ground) (List.concat (o_segs a))))
+                      (fst (run (tc_of (i_cfg i) false true) (scr0, Ground) (List.concat (o_segs b)))))%bool
+      | _ =>
+          (Nat.eqb (o_writer a) (o_writer b) && Bool.eqb (o_piped a) (o_piped b) && Bool.eqb (o_color a) (o_color b)
+           && list_eqb text_eqb (o_segs a) (o_segs b))%bool
+      end
   | _ => (list_eqb text_eqb (o_segs a) (o_segs b) && list_eqb text_eqb (o_lines a) (o_lines b)
           && Nat.eqb (o_count a) (o_count b))%bool
   end.
@@ -155,6 +198,24 @@ Definition check (i : inp) (o : option obs) : bool :=
       | KBuffered =>
           (C20_check_buffered c (i_ups i) (List.concat (o_segs o))
            && forallb (fun s => match s with [] => true | _ => false end) (removelast (o_segs o)))%bool
+      | KSelect k snap noout =>
+          (* the property: anything that is not a character device (pipe, regular file, ...) gets
+             the buffered writer, and what arrives are the final lines top to bottom; a terminal
+             gets the live writer unless --snapshot; --noout prints nothing *)
+          if noout then (Nat.eqb (o_writer o) 2 && text_eqb (List.concat (o_segs o)) [])%bool else
+          match k with
+          | OCharDev => true
+          | OTerminal =>
+              let e := run (tc_of c false true) (scr0, Ground) (List.concat (o_segs o)) in
+              let n := match i_ups i with [] => 0 | _ => S (max_line (i_ups i)) end in
+              (Nat.eqb (o_writer o) (if snap then 1 else 0)
+               && (negb (fits (tc_of c false true) c (i_ups i))
+                   || (is_ground (snd e) && rows_show c (i_ups i) (rows (fst e)) (S (max_line (i_ups i)))
+                       && (List.length (rows (fst e)) <=? S (max_line (i_ups i)))
+                       && Nat.eqb (crow (fst e)) (if snap then n else S (max_line (i_ups i)))
+                       && Nat.eqb (ccol (fst e)) 0 && cvis (fst e))))%bool
+          | _ => (Nat.eqb (o_writer o) 1 && C20_check_buffered c (i_ups i) (List.concat (o_segs o)))%bool
+          end
       | KVirtual size =>
           let ls := vt_lines_spec size (i_ups i) in
           (text_eqb (List.concat (o_segs o))
